@@ -9,6 +9,7 @@ import (
 	"os"
 	"os/exec"
 	"path/filepath"
+	"regexp"
 	"strings"
 	"sync"
 	"time"
@@ -37,8 +38,12 @@ type solveOut struct {
 }
 
 func runSolver(s Solver, timeoutS int, file string) solveOut {
+	return runSolverCtx(context.Background(), s, timeoutS, file)
+}
+
+func runSolverCtx(parent context.Context, s Solver, timeoutS int, file string) solveOut {
 	args := s.Args(timeoutS, file)
-	ctx, cancel := context.WithTimeout(context.Background(), time.Duration(timeoutS+2)*time.Second)
+	ctx, cancel := context.WithTimeout(parent, time.Duration(timeoutS+2)*time.Second)
 	defer cancel()
 	cmd := exec.CommandContext(ctx, args[0], args[1:]...)
 	var out bytes.Buffer
@@ -63,29 +68,50 @@ func runSolver(s Solver, timeoutS int, file string) solveOut {
 	return solveOut{res, s.Name, secs, text}
 }
 
-// solveScript tries the primary solver, then races the others.
+// solveScript: staged portfolio. z3-new starts at once; if it has not answered after a short grace period the
+// other back ends are started beside it. The first definitive answer (unsat/sat) wins and the rest are stopped.
 func solveScript(script, dir, base string, timeoutS int) solveOut {
 	file := filepath.Join(dir, base+".smt2")
 	os.WriteFile(file, []byte(script), 0644)
-	r := runSolver(solvers[0], timeoutS, file)
-	if r.result == "unsat" || r.result == "sat" {
-		return r
-	}
-	ch := make(chan solveOut, 2)
-	for _, s := range solvers[1:] {
-		go func(s Solver) { ch <- runSolver(s, timeoutS, file) }(s)
-	}
-	best := r
-	for i := 0; i < 2; i++ {
-		o := <-ch
-		if o.result == "unsat" || o.result == "sat" {
-			if best.result != "unsat" {
+	ctx, cancel := context.WithCancel(context.Background())
+	defer cancel()
+	ch := make(chan solveOut, len(solvers))
+	t0 := time.Now()
+	go func() { ch <- runSolverCtx(ctx, solvers[0], timeoutS, file) }()
+	started := 1
+	grace := time.NewTimer(1500 * time.Millisecond)
+	defer grace.Stop()
+	var best solveOut
+	got := 0
+	for got < started {
+		select {
+		case <-grace.C:
+			for _, s := range solvers[1:] {
+				s := s
+				go func() { ch <- runSolverCtx(ctx, s, timeoutS, file) }()
+				started++
+			}
+		case o := <-ch:
+			got++
+			if o.result == "unsat" || o.result == "sat" {
+				o.secs = time.Since(t0).Seconds()
+				return o
+			}
+			if got == 1 && started == 1 {
+				// primary gave up early: start the others now
+				grace.Stop()
+				for _, s := range solvers[1:] {
+					s := s
+					go func() { ch <- runSolverCtx(ctx, s, timeoutS, file) }()
+					started++
+				}
+			}
+			if best.result == "" || (best.result == "error" && o.result != "error") || o.result == "timeout" {
 				best = o
 			}
-		} else if best.result == "error" && o.result != "error" {
-			best = o
 		}
 	}
+	best.secs = time.Since(t0).Seconds()
 	return best
 }
 
@@ -147,6 +173,15 @@ func dischargeAll(frs []*FuncResult, dir string, timeoutS, par int, filter func(
 				j.o.Model = getModel(script, dir, base, timeoutS, out.backend)
 			}
 			if (out.result == "timeout" || out.result == "unknown") && !j.o.Cover {
+				// retry with an explicit case split on the in-place/realloc outcome of each append
+				if so, ok := splitSolve(script, dir, base, to); ok {
+					out = so
+					j.o.Result = out.result
+					j.o.Backend = out.backend
+					j.o.Secs += out.secs
+				}
+			}
+			if (out.result == "timeout" || out.result == "unknown") && !j.o.Cover {
 				// model search on the quantifier-free relaxation (a candidate input only: believed only if the replay confirms it)
 				relaxed := relaxScript(script)
 				r2 := solveScript(relaxed, dir, base+"r", 5)
@@ -171,4 +206,34 @@ func relaxScript(script string) string {
 		out = append(out, ln)
 	}
 	return strings.Join(out, "\n")
+}
+
+var reFits = regexp.MustCompile(`\(declare-const (ap_fits![0-9]+) Bool\)`)
+
+// splitSolve: discharge by cases over the append outcome booleans (all cases must be unsat).
+func splitSolve(script, dir, base string, timeoutS int) (solveOut, bool) {
+	m := reFits.FindAllStringSubmatch(script, -1)
+	if len(m) == 0 || len(m) > 4 {
+		return solveOut{}, false
+	}
+	total := 0.0
+	backend := ""
+	for mask := 0; mask < 1<<uint(len(m)); mask++ {
+		extra := ""
+		for i, x := range m {
+			if mask&(1<<uint(i)) != 0 {
+				extra += "(assert " + x[1] + ")\n"
+			} else {
+				extra += "(assert (not " + x[1] + "))\n"
+			}
+		}
+		cand := strings.Replace(script, "(check-sat)\n", extra+"(check-sat)\n", 1)
+		o := solveScript(cand, dir, fmt.Sprintf("%ss%d", base, mask), timeoutS)
+		total += o.secs
+		if o.result != "unsat" {
+			return solveOut{}, false
+		}
+		backend = o.backend
+	}
+	return solveOut{result: "unsat", backend: backend + "+split", secs: total}, true
 }
